@@ -27,6 +27,26 @@ def _pickled_elsewhere(gi, proto):
     return _FOREIGN[(gi, proto)]
 
 
+_ELSEWHERE = {}
+_WARM = [0]
+
+
+def _evaluated_elsewhere(gi, proto):
+    """GRAPHS[gi] - after an overload was registered on it at RUN TIME in this process - is pickled here, unpickled and
+    evaluated by a freshly started interpreter under the run-time alias; returns what that interpreter printed."""
+    if (gi, proto) not in _ELSEWHERE:
+        verif = os.path.dirname(os.path.dirname(os.path.abspath(__file__)))
+        G = defs.GRAPHS[gi]
+        G.register(777, Value("registered-at-run-time"))
+        blob = pickle.dumps(G, proto)
+        code = ("import sys, pickle; sys.path[:0] = %r; blob = sys.stdin.buffer.read(); C = pickle.loads(blob); "
+                "print(repr(C({'D': 777, 'A': 1, 'X': 2})))" % ([p for p in sys.path if p],))
+        p = subprocess.run([sys.executable, "-c", code], input=blob, capture_output=True, cwd=verif,
+                           env={"PATH": "/usr/bin:/bin", "HOME": "/tmp"})
+        _ELSEWHERE[(gi, proto)] = p.stdout.decode().strip() if p.returncode == 0 else "subprocess failed: " + p.stderr.decode()[-300:]
+    return _ELSEWHERE[(gi, proto)]
+
+
 def _opts(a, pa, b, pb, d, pd, x, px):
     o = {}
     if pa:
@@ -55,7 +75,7 @@ def _same_outcome(p, q):
                 "with_default_options derivative; a dataset one of whose overloads is built from the dataset itself; a dependency whose effects were disabled through disable_effects() before pickling); pickle protocols 0-5 pickled in this process, protocols 2 and 5 also pickled by a freshly started interpreter; "
                 "options A, B, D, X present or absent with unbounded int values",
          what="loads(dumps(G)) evaluates to the same value / fails alike and reports the same keys as G for every dictionary, "
-              "including overloads registered before pickling; the copy accepts a further registration and evaluates it; live datasets of the unpickling process are undisturbed")
+              "including overloads registered before pickling; the copy accepts a further registration and evaluates it; live datasets of the unpickling process are undisturbed; an overload registered at run time (outside the defining module) survives the trip into a fresh interpreter")
 def roundtrip(gi: int, pw: list, a: int, pa: bool, b: int, pb: bool, d: int, pd: bool, x: int, px: bool) -> int:
     proto, where = pw
     G = defs.GRAPHS[gi]
@@ -81,6 +101,27 @@ def roundtrip(gi: int, pw: list, a: int, pa: bool, b: int, pb: bool, d: int, pd:
         want = ("ok", ("base", a, b if pb else 1)) if pa else None
         if (want is None and by[0] == "ok") or (want is not None and not _same_outcome(by, want)):
             note("unpickling disturbed a live dataset: plain ->", by, "expected", want)
+            return 0
+    if gi == 1 and where == 0:
+        # memoized values travel with the pickle: what the original has stored, the copy returns too
+        _WARM[0] += 1
+        alias = 1000 + _WARM[0]
+        ow = dict(o)
+        ow["D"] = alias
+        with quiet():
+            stored = outcome(lambda: G(ow))                  # unregistered alias: the default implementation, now stored
+            G.register(alias, Value("registered-after-the-evaluation"))
+            with untraced():
+                C2 = pickle.loads(pickle.dumps(G, proto))
+            orig, copy = outcome(lambda: G(ow)), outcome(lambda: C2(ow))
+        if not _same_outcome(orig, copy):
+            note("warm original", orig, "copy", copy, "first evaluation", stored)
+            return 0
+    if gi == 1 and where == 0 and proto in (2, 5):
+        with untraced():
+            printed = _evaluated_elsewhere(gi, proto)
+        if printed != repr(("cb", "registered-at-run-time")):
+            note("a fresh interpreter unpickled the dataset and evaluated the run-time alias to", printed)
             return 0
     if gi in (1, 3, 5):
         # the copy remains usable: a further registration on the copy is honoured by the copy (and does not need the original)
